@@ -589,3 +589,53 @@ Proof.
   apply (H t0 Ht0). cbn [sort_term t_vars] in Hk.
   eapply Permutation_in; [apply keys_perm; apply sort_vars_perm|exact Hk].
 Qed.
+
+(* ------------------------------------------------------------------------ *)
+(** * One term as a function of one variable *)
+
+Lemma vars_prod_split (pre post : list (name * R)) e v p t :
+  ~ In v (keys pre) -> ~ In v (keys post) ->
+  vars_prod (pre ++ (v, p) :: post) (upd e v t) = vars_prod pre e * (Rpowf t p * vars_prod post e).
+Proof.
+  intros H1 H2. rewrite vars_prod_app. cbn [vars_prod].
+  rewrite getv_upd_same, !vars_prod_upd_absent by assumption. reflexivity.
+Qed.
+
+Lemma vars_prod_split_derive (pre post : list (name * R)) e v p x :
+  ~ In v (keys pre) -> ~ In v (keys post) -> p <> 0 -> dom_pow p x ->
+  is_derive (fun t => vars_prod (pre ++ (v, p) :: post) (upd e v t)) x
+            (p * vars_prod (pre ++ (v, p - 1) :: post) (upd e v x)).
+Proof.
+  intros H1 H2 Hp Hd.
+  assert (E : forall t : R, (vars_prod pre e * vars_prod post e) * Rpowf t p
+                             = vars_prod (pre ++ (v, p) :: post) (upd e v t)).
+  { intro t. rewrite vars_prod_split by assumption. ring. }
+  apply is_derive_ext with (f := fun t => (vars_prod pre e * vars_prod post e) * Rpowf t p); [exact E|].
+  rewrite vars_prod_split by assumption.
+  replace (p * (vars_prod pre e * (Rpowf x (p - 1) * vars_prod post e)))
+    with ((vars_prod pre e * vars_prod post e) * (p * Rpowf x (p - 1))) by ring.
+  apply is_derive_scal. apply Rpowf_derive; assumption.
+Qed.
+
+Lemma vars_prod_const_derive (vs : list (name * R)) e v x :
+  ~ In v (keys vs) -> is_derive (fun t => vars_prod vs (upd e v t)) x 0.
+Proof.
+  intro H. apply is_derive_ext with (f := fun _ : R => vars_prod vs e).
+  { intro t. symmetry. apply vars_prod_upd_absent. exact H. }
+  apply @is_derive_const.
+Qed.
+
+Lemma nodup_keys_split (pre post : list (name * R)) k p :
+  NoDup (keys (pre ++ (k, p) :: post)) -> ~ In k (keys pre) /\ ~ In k (keys post).
+Proof.
+  rewrite keys_app. cbn [keys map fst]. intro H.
+  apply NoDup_remove_2 in H. split; intro Hin; apply H; apply in_or_app; [left|right]; exact Hin.
+Qed.
+
+Lemma is_derive_scal_const (f : R -> R) (c x l : R) :
+  is_derive f x l -> is_derive (fun t => c * f t) x (c * l).
+Proof. apply is_derive_scal. Qed.
+
+(* well-formed term lists: pairwise distinct variable names inside each term *)
+Definition wf_term (t : term R) : Prop := NoDup (keys (t_vars t)).
+Definition wf_terms (ts : list (term R)) : Prop := forall t, In t ts -> wf_term t.
